@@ -3,7 +3,7 @@
    of package sms instantiated with the struct layouts regenerated from the
    running code (Model/TpduRun.v); the harness evaluates exactly these functions
    on every input the implementation ran (harness/c18.go). *)
-From V Require Import Model.TpduRun Proofs.TpduTotal.
+From V Require Import Model.TpduRun Proofs.TpduTotal Model.TpduReader Proofs.TpduReader.
 Open Scope N_scope.
 
 (* For every octet list (no size bound, no assumption on the octets), for every
@@ -58,3 +58,52 @@ Example C18_example :
   sms_remarshal sample_deliver = Ok sample_deliver /\
   (exists e, sms_unmarshal (firstn 20 sample_deliver) = Err e).
 Proof. exact sample_deliver_roundtrip. Qed.
+
+(* ---- "For every byte sequence": what is claimed about the io.Reader the octets come from.
+   sms.Unmarshal decodes from ONE bufio.Reader over its argument, with four primitives: ReadByte, readFull (a
+   multi-octet field), Peek (message type detection) and Discard (enhanced validity period).  Model/TpduReader.v
+   models that bufio.Reader over a reader which hands out the octets in pieces of ANY positive sizes (a schedule)
+   and then io.EOF, with the last piece or on the next call.  For every such reader state (invariant [inv]: a
+   pending io.EOF means the source is exhausted; at most 4096 octets buffered), every primitive returns what the
+   list primitive of Model/Tpdu.v - the one all theorems above are about - returns on the octets still to come
+   ([content]), and leaves a reader whose octets still to come are the list's rest.  Hence the outcome of the
+   decoder, a composition of these four, depends on the octets only.
+
+   FULL STATEMENT (not proved; would need the decoder of Model/Tpdu.v re-expressed over [breader]):
+     forall data sched eofd, unmarshal_on (new_reader data sched eofd) = sms_unmarshal data.
+   Proved: the statement for each primitive (this theorem, _partial in that sense) + [new_reader] satisfies [inv]
+   and holds exactly the input.  The harness checks the composed statement directly on every input of C18 and C19
+   (four chunking readers) and ties the bufio model by scripts of primitives run on a real bufio.Reader. *)
+Theorem C18_reader_independence_partial :
+  forall b : breader, inv b ->
+    (match read_byte (content b) with
+     | Ok (x, rest) => exists b', br_read_byte b = Ok (x, b') /\ content b' = rest /\ inv b'
+     | Err _ => br_read_byte b = Err EEOF
+     | Panic => False end) /\
+    (forall n, match read_n n (content b) with
+     | Ok (l, rest) => exists b', br_read_full n b = Ok (l, b') /\ content b' = rest /\ inv b'
+     | Err _ => br_read_full n b = Err EEOF
+     | Panic => False end) /\
+    (forall n, (n <= 4096)%nat ->
+       if blen (content b) <? N.of_nat n then br_peek n b = Err EEOF
+       else exists b', br_peek n b = Ok (firstn n (content b), b') /\ content b' = content b /\ inv b') /\
+    (forall n, match discard n (content b) with
+     | Ok rest => exists b', br_discard n b = Ok b' /\ content b' = rest /\ inv b'
+     | Err _ => br_discard n b = Err EEOF
+     | Panic => False end).
+Proof.
+  exact (fun b H => conj (read_byte_independent b H) (conj (fun n => read_full_independent n b H)
+          (conj (fun n Hn => peek_independent n b H Hn) (fun n => discard_independent n b H)))).
+Qed.
+Theorem C18_new_reader : forall data sched eofd,
+  inv (new_reader data sched eofd) /\ content (new_reader data sched eofd) = data.
+Proof. exact new_reader_ok. Qed.
+(* The defect repaired by fix e4e565a (one Read per field, count ignored): behind a reader that hands out one octet
+   per call a three-octet field reads 01 00 00 and leaves 02 03 to the next field; readFull reads 01 02 03 as the
+   list does. *)
+Theorem C18_single_read_refuted :
+  let b := new_reader [1; 2; 3] [] false in
+  (exists b', br_read_once 3 b = Ok ([1; 0; 0], b') /\ content b' = [2; 3]) /\
+  read_n 3 (content b) = Ok ([1; 2; 3], []) /\
+  (exists b', br_read_full 3 b = Ok ([1; 2; 3], b') /\ content b' = []).
+Proof. exact read_once_refuted. Qed.
